@@ -2,6 +2,7 @@ package main
 
 import (
 	"encoding/hex"
+	"errors"
 	"fmt"
 	"strconv"
 	"strings"
@@ -200,25 +201,79 @@ func genText(r *Run, a *alphabet, maxLen int, bad bool) []rune {
 	return out
 }
 
-// data_coding values that resolve to the given table entry (message-waiting / message-class groups)
+// data_coding values (message-waiting / message-class groups) whose encoder behaves like that of the given table
+// entry - by behaviour (gen_charsets_closure.go), not by comparing Encoding() values
 func aliasesOf() map[coding.DataCoding][]coding.DataCoding {
 	m := map[coding.DataCoding][]coding.DataCoding{}
-	for b := 0; b < 256; b++ {
-		c := coding.DataCoding(b)
-		e := c.Encoding()
-		if e == nil {
-			continue
-		}
-		for _, cs := range charsetList {
-			same := false
-			guard(func() { same = cs.dc.Encoding() == e })
-			if same {
-				m[cs.dc] = append(m[cs.dc], c)
-				break
-			}
-		}
+	for _, cs := range charsetList {
+		m[cs.dc] = aliasValues(cs.dc)
 	}
 	return m
+}
+
+// the outcome classes of the composing entry points, whatever the error is wrapped in
+func isTooLarge(err error) bool { return errors.Is(err, pdu.ErrShortMessageTooLarge) }
+func isTooMany(err error) bool  { return errors.Is(err, pdu.ErrMultipartTooMuch) }
+
+// closureWitness: a concrete input on which data_coding dc (encoder / decoder / splitter, by `which`) behaves
+// differently from the table constant base
+func closureWitness(dc, base coding.DataCoding, which string) string {
+	res := "no single character or probe text found (digests differ)"
+	guard(func() {
+		switch which {
+		case "splitter":
+			sa, sb := dc.Splitter(), base.Splitter()
+			done := false
+			sweepRunes(func(x rune) {
+				if !done && sa(x) != sb(x) {
+					done = true
+					res = fmt.Sprintf("character %s: Splitter() charges %d bits, data_coding %d charges %d", uplus(x), sa(x), byte(base), sb(x))
+				}
+			})
+		case "encoder":
+			ea, eb := dc.Encoding().NewEncoder(), base.Encoding().NewEncoder()
+			done := false
+			sweepRunes(func(x rune) {
+				if done {
+					return
+				}
+				a, oka := encodeOne(ea, x)
+				b, okb := encodeOne(eb, x)
+				if oka != okb || string(a) != string(b) {
+					done = true
+					res = fmt.Sprintf("character %s: encoder gives ok=%v %x, data_coding %d gives ok=%v %x", uplus(x), oka, a, byte(base), okb, b)
+				}
+			})
+			for _, t := range closureProbeTexts {
+				if done {
+					break
+				}
+				a, oka, _ := implEncode(dc, t)
+				b, okb, _ := implEncode(base, t)
+				if oka != okb || string(a) != string(b) {
+					done = true
+					res = fmt.Sprintf("text %q: encoder gives ok=%v %x, data_coding %d gives ok=%v %x", t, oka, a, byte(base), okb, b)
+				}
+			}
+		case "decoder":
+			eb := base.Encoding().NewEncoder()
+			done := false
+			sweepRunes(func(x rune) {
+				if done {
+					return
+				}
+				if b, ok := encodeOne(eb, x); ok {
+					da, oka, _ := implDecode(dc, b)
+					db, okb, _ := implDecode(base, b)
+					if oka != okb || da != db {
+						done = true
+						res = fmt.Sprintf("octets %x: decoder gives ok=%v %q, data_coding %d gives ok=%v %q", b, oka, da, byte(base), okb, db)
+					}
+				}
+			})
+		}
+	})
+	return res
 }
 
 func corrC17(r *Run) {
@@ -310,9 +365,54 @@ func corrC17(r *Run) {
 		r.Case(fmt.Sprintf("availability %d", b), fmt.Sprintf("Bool.eqb (has_encoder %d) %s && Bool.eqb (has_decoder %d) %s && Bool.eqb (has_splitter %d) %s",
 			b, coqBool(hasEnc), b, coqBool(hasDec), b, coqBool(hasSpl)))
 	}
+	// ---- 3b. closure, all 256 data_coding values: a value with an encoder has the decoder and the splitter OF THE SAME
+	// coding - each of the three is classified by its behaviour (gen_charsets_closure.go), independently of how
+	// Encoding() / Splitter() find them.  A splitter that is present but belongs to another coding makes the
+	// multipart estimate wrong for that value (parts half empty, or texts refused as too large).
+	{
+		tab := dcClosure()
+		for b := 0; b < 256; b++ {
+			cl := tab[b]
+			if cl.enc == clsNone {
+				continue
+			}
+			in := fmt.Sprintf("closure %d", b)
+			r.Count(in, true, "data_coding value with an encoder: closure")
+			r.Case(in, fmt.Sprintf("closure_row_eq %d (%d, %d, %d)", b, cl.enc, cl.dec, cl.spl))
+			// the coding the library itself declares for a message-waiting / message-class value (its public accessors)
+			declared, grouped := coding.NoCoding, false
+			guard(func() {
+				if c, _, kind := coding.DataCoding(b).MessageWaitingInfo(); kind != -1 {
+					declared, grouped = c, true
+				} else if c, class := coding.DataCoding(b).MessageClass(); class != -1 {
+					declared, grouped = c, true
+				}
+			})
+			if grouped && tab[byte(declared)].enc != clsNone && cl.enc != tab[byte(declared)].enc {
+				r.Fail(fmt.Sprintf("closure/dc=%d/encoder-not-of-the-declared-coding", b), "the encoder of this message-waiting / message-class value is not that of the coding the value denotes",
+					in, fmt.Sprintf("MessageWaitingInfo/MessageClass say data_coding %d; %s", byte(declared), closureWitness(coding.DataCoding(b), declared, "encoder")), "the encoder of that coding")
+				continue
+			}
+			if cl.enc == clsOther {
+				r.Fail(fmt.Sprintf("closure/dc=%d/encoder-of-no-table-coding", b), "the encoder of this data_coding value behaves like none of the ten codings of the table",
+					in, "encoder class 254", "the encoder of one of the table's codings")
+				continue
+			}
+			base := coding.DataCoding(cl.enc)
+			bcl := tab[cl.enc]
+			if cl.dec != bcl.dec && cl.dec != clsNone {
+				r.Fail(fmt.Sprintf("closure/dc=%d/decoder-of-another-coding", b), "the decoder of this data_coding value is not the one matching its encoder",
+					in, fmt.Sprintf("encoder behaves like data_coding %d; %s", cl.enc, closureWitness(coding.DataCoding(b), base, "decoder")), "the decoder of the same coding")
+			}
+			if cl.spl != bcl.spl && cl.spl != clsNone {
+				r.Fail(fmt.Sprintf("closure/dc=%d/splitter-of-another-coding", b), "the splitter of this data_coding value is not the one matching its encoder",
+					in, fmt.Sprintf("encoder behaves like data_coding %d; %s", cl.enc, closureWitness(coding.DataCoding(b), base, "splitter")), "the splitter of the same coding")
+			}
+		}
+	}
 	// ---- 4. texts: encode / decode on the implementation and on the model
 	aliases := aliasesOf()
-	perCoding := r.N(70, 1000)
+	perCoding := r.N(70, 650)
 	for _, cs := range charsetList {
 		a := alph[cs.dc]
 		for i := 0; i < perCoding; i++ {
@@ -355,7 +455,7 @@ func corrC17(r *Run) {
 	for _, t := range []string{"Łódź", "Dvořák", "Ґ", "ְשלום", "日本©", "가¢", "Ā", "naïve café", "Жук", "שלום", "日本語", "안녕", "\U0001F48A", "€uro", "a\u0085b"} {
 		entryPoints(r, t, []coding.DataCoding{coding.Latin1Coding, coding.CyrillicCoding, coding.HebrewCoding, coding.UCS2Coding, coding.ShiftJISCoding, coding.EUCKRCoding}, "corpus")
 	}
-	nEP := r.N(14, 250)
+	nEP := r.N(14, 170)
 	for _, d := range detectList {
 		if d.dc == coding.GSM7BitCoding || d.dc == coding.ASCIICoding {
 			continue
@@ -378,6 +478,9 @@ func corrC17(r *Run) {
 			dcs := []coding.DataCoding{d.dc}
 			if i%5 == 0 {
 				dcs = append(dcs, coding.UCS2Coding, coding.ISO2022JPCoding, coding.EUCJPCoding)
+				if al := aliases[coding.UCS2Coding]; len(al) > 0 { // a message-waiting / message-class value that carries UCS-2
+					dcs = append(dcs, al[r.Rng.Intn(len(al))])
+				}
 			}
 			entryPoints(r, string(text), dcs, d.name+" text")
 		}
@@ -386,8 +489,17 @@ func corrC17(r *Run) {
 	// coding whose characters have more than one width; each part is decoded on its own
 	wide := []coding.DataCoding{coding.ShiftJISCoding, coding.EUCJPCoding, coding.EUCKRCoding, coding.ISO2022JPCoding, coding.UCS2Coding}
 	specials := []rune{0x7F, 0x00, 0x0A, 0x1F, 0x7E, 0x20, 0x80, 0x85, 0xA0, 0xFF71, 0x1F48A}
+	if al := aliases[coding.UCS2Coding]; len(al) > 0 {
+		wide = append(wide, al[r.Rng.Intn(len(al))], al[r.Rng.Intn(len(al))])
+	}
 	for _, dc := range wide {
 		a := alph[dc]
+		if b, ok := encBaseOf(dc); ok && a == nil {
+			a = alph[b]
+		}
+		if a == nil {
+			continue
+		}
 		var two []rune // characters of two octets
 		enc := dc.Encoding().NewEncoder()
 		for _, x := range a.other {
@@ -413,6 +525,9 @@ func corrC17(r *Run) {
 				}
 			} else {
 				for o := 20; o <= 72; o++ {
+					if _, isBase := alph[dc]; !isBase && o%4 != 0 && (o < 62 || o > 70) {
+						continue // alias values: every offset around the cut, every 4th elsewhere
+					}
 					offsets = append(offsets, o)
 				}
 			}
@@ -449,7 +564,7 @@ func corrC17(r *Run) {
 		for _, h := range corpus {
 			entryHistory(r, h, "history corpus")
 		}
-		nH := r.N(10, 200)
+		nH := r.N(10, 140)
 		for _, cs := range charsetList {
 			a := alph[cs.dc]
 			for i := 0; i < nH; i++ {
@@ -477,7 +592,7 @@ func corrC17(r *Run) {
 		}
 	}
 	// ---- 5. decoders on random sequences of valid codes (not only encoder images)
-	nSeq := r.N(25, 400)
+	nSeq := r.N(25, 300)
 	for _, cs := range charsetList {
 		if cs.kind != 1 {
 			continue
@@ -503,13 +618,8 @@ func corrC17(r *Run) {
 // (class suffix, required).  GSM 7-bit (C08/C09) is out of scope here.
 func conformsText(dc coding.DataCoding, s string, octets []byte) (cls, required string) {
 	base := dc
-	for _, cs := range charsetList {
-		same := false
-		guard(func() { same = dc.Encoding() != nil && cs.dc.Encoding() == dc.Encoding() })
-		if same {
-			base = cs.dc
-			break
-		}
+	if b, ok := encBaseOf(dc); ok { // by behaviour of the encoder, not by identity of the Encoding value
+		base = b
 	}
 	if dc == coding.Latin1Coding {
 		base = dc
@@ -604,14 +714,19 @@ func checkMultipart(r *Run, s string, dc coding.DataCoding, bucket, in, where st
 	}
 	_, rejected := firstRejected(dc, s)
 	if err != nil {
-		if !rejected && err != pdu.ErrShortMessageTooLarge && err != pdu.ErrMultipartTooMuch {
+		if !rejected && !isTooLarge(err) && !isTooMany(err) {
 			r.Fail("multipart/"+name+"/rejected-representable-text", "a text the coding can represent was rejected", in, fmt.Sprintf("%serror %v", where, err), "parts")
 		}
 		if rejected {
 			r.Case(in+" "+where, fmt.Sprintf("same_out (encode_dc %d %s) (Err EText)", byte(dc), coqRunes(runes)))
 			return "err:text"
 		}
-		return "err:" + err.Error()
+		if isTooLarge(err) {
+			return "err:too-large"
+		} else if isTooMany(err) {
+			return "err:too-many"
+		}
+		return "err:other"
 	}
 	// each part carries a segment and is decoded on its own by the receiver; together they must be the text
 	var all []byte
@@ -788,6 +903,15 @@ func replayText(arg string) string {
 		}
 		d, ok, pan := implDecode(num(f[1]), raw)
 		return fmt.Sprintf("ok=%v panic=%v decoded=%q", ok, pan, d)
+	case "closure":
+		c := num(f[1])
+		cl := dcClosure()[byte(c)]
+		res := fmt.Sprintf("data_coding %d: encoder like %d, decoder like %d, splitter like %d (255 none, 254 like no table constant)", byte(c), cl.enc, cl.dec, cl.spl)
+		if cl.enc < clsOther {
+			b := coding.DataCoding(cl.enc)
+			res += "; decoder: " + closureWitness(c, b, "decoder") + "; splitter: " + closureWitness(c, b, "splitter")
+		}
+		return res
 	case "avail":
 		c := num(f[1])
 		return fmt.Sprintf("encoding=%v splitter=%v", c.Encoding() != nil, c.Splitter() != nil)
